@@ -45,7 +45,7 @@ def main():
         res["ran"]["test_suite_wall_s"] = round(time.time() - t)
         # the checks
         out = tempfile.mkdtemp(prefix="seedout_", dir="/tmp")
-        cenv = dict(os.environ, PV_REPO=wt, PV_EVIDENCE_DIR=os.path.join(out, "evidence"), PV_REPLAY_DIR=os.path.join(out, "replays"))
+        cenv = dict(os.environ, PV_REPO=wt, PV_EVIDENCE_DIR=os.path.join(out, "evidence"), PV_REPLAY_DIR=os.path.join(out, "replays"), PV_GEN_DIR=os.path.join(out, "gen"))
         det = {}
         for pid in checks:
             t = time.time()
